@@ -172,3 +172,41 @@ Proof.
   - rewrite !vsum_smul, (Nk_sum g). unfold N. ring.
 Qed.
 End RhoPath.
+
+(* the two hierarchy identities instantiated with the closures the wrappers actually pass *)
+Lemma hierarchy_from_graph g rho_opt t tau gam theta R :
+  wf_ugraph g = true ->
+  let r := rho_or_default g rho_opt in let c := fg_coeffs g r in let N := gN g in
+  ~ tau == 0 -> ~ theta == 0 -> ~ D c theta == 0 -> ~ D c 1 == 0 ->
+  let e := dEBCM [theta; R] t N tau gam (fg_psihat g r) (fg_psihatPrime g r) (fg_phiS0 r) fg_phiR0 in
+  veq (dSIR_compact_pairwise (Phi_cp c N tau gam (fg_phiS0 r) fg_phiR0 theta R) t N tau gam)
+      (DPhi_cp c N tau gam (fg_phiS0 r) fg_phiR0 theta (vnth 0 e) (vnth 1 e)) /\
+  veq (dSIR_super_compact_pairwise (Phi_sc c N tau gam (fg_phiS0 r) fg_phiR0 theta R) t tau gam
+         (fg_psihat g r) (fg_psihatPrime g r) (fg_psihatDPrime g r) N)
+      (DPhi_sc c N tau gam (fg_phiS0 r) fg_phiR0 theta (vnth 0 e) (vnth 1 e)).
+Proof.
+  intros WG r c N Ht Hth Ha Hc. cbv zeta.
+  assert (H1 : ~ 1 == 0) by (intro H; discriminate H).
+  pose proof (gN_nonzero g WG) as HN.
+  split.
+  - apply ebcm_to_compact; try assumption.
+    + apply fg_psihat_poly; exact WG.
+    + apply fg_psihatPrime_poly; assumption.
+    + apply fg_psihatPrime_poly; assumption.
+  - apply ebcm_to_super_compact; try assumption.
+    + apply fg_psihat_poly; exact WG.
+    + apply fg_psihatPrime_poly; assumption.
+    + apply fg_psihatPrime_poly; assumption.
+    + apply fg_psihatDPrime_poly; assumption.
+Qed.
+
+Lemma wrapper_closures_are_polynomials g rho x : wf_ugraph g = true ->
+  fg_psihat g rho x == peval (fg_coeffs g rho) x /\
+  (~ x == 0 -> fg_psihatPrime g rho x == D (fg_coeffs g rho) x /\ fg_psihatDPrime g rho x == D (pderiv (fg_coeffs g rho)) x).
+Proof.
+  intros WG. split; [apply fg_psihat_poly; exact WG|]. intros Hx.
+  split; [apply fg_psihatPrime_poly|apply fg_psihatDPrime_poly]; assumption.
+Qed.
+
+(* examples used by Props/C07x.v *)
+Definition ex_c : list Q := pscale (9 # 10) [0; 1 # 4; 1 # 2; 1 # 4].
